@@ -201,15 +201,22 @@ func extremeCounterCorpus(r *hx.Run) {
 	type sc struct {
 		v0    int
 		waits []arrival
-		set   int
+		sets  []int
 	}
 	for i, c := range []sc{
-		{-3, []arrival{{t: 0, op: "above", arg: "0"}, {t: 1, op: "above", arg: "2"}}, math.MaxInt},
-		{3, []arrival{{t: 0, op: "below", arg: "1"}, {t: 1, op: "below", arg: "0"}}, math.MinInt},
-		{5, []arrival{{t: 0, op: "below", arg: "1"}, {t: 1, op: "below", arg: "-2"}}, math.MinInt + 2},
-		{-5, []arrival{{t: 0, op: "above", arg: "1"}, {t: 1, op: "above", arg: "-1"}}, math.MaxInt - 1},
-		{math.MaxInt, []arrival{{t: 0, op: "below", arg: "1"}, {t: 1, op: "below", arg: "-1"}}, math.MinInt},
-		{math.MinInt, []arrival{{t: 0, op: "above", arg: "0"}, {t: 1, op: "above", arg: "2"}}, math.MaxInt},
+		{-3, []arrival{{t: 0, op: "above", arg: "0"}, {t: 1, op: "above", arg: "2"}}, []int{math.MaxInt}},
+		{3, []arrival{{t: 0, op: "below", arg: "1"}, {t: 1, op: "below", arg: "0"}}, []int{math.MinInt}},
+		{5, []arrival{{t: 0, op: "below", arg: "1"}, {t: 1, op: "below", arg: "-2"}}, []int{math.MinInt + 2}},
+		{-5, []arrival{{t: 0, op: "above", arg: "1"}, {t: 1, op: "above", arg: "-1"}}, []int{math.MaxInt - 1}},
+		{math.MaxInt, []arrival{{t: 0, op: "below", arg: "1"}, {t: 1, op: "below", arg: "-1"}}, []int{math.MinInt}},
+		{math.MinInt, []arrival{{t: 0, op: "above", arg: "0"}, {t: 1, op: "above", arg: "2"}}, []int{math.MaxInt}},
+		// corner thresholds: nothing is above MaxInt or below MinInt (these two waits can never return) ...
+		{0, []arrival{{t: 0, op: "above", arg: strconv.Itoa(math.MaxInt)}, {t: 1, op: "below", arg: strconv.Itoa(math.MinInt)}}, []int{math.MaxInt, math.MinInt, 0}},
+		// ... their neighbours return only at the very ends of the range ...
+		{0, []arrival{{t: 0, op: "above", arg: strconv.Itoa(math.MaxInt - 1)}, {t: 1, op: "below", arg: strconv.Itoa(math.MinInt + 1)}}, []int{math.MaxInt - 1, math.MaxInt, math.MinInt + 1, math.MinInt}},
+		// ... and the opposite ends hold everywhere but at the end itself
+		{math.MaxInt, []arrival{{t: 0, op: "below", arg: strconv.Itoa(math.MaxInt)}, {t: 1, op: "above", arg: strconv.Itoa(math.MinInt)}}, []int{math.MaxInt - 1}},
+		{math.MinInt, []arrival{{t: 0, op: "above", arg: strconv.Itoa(math.MinInt)}, {t: 1, op: "below", arg: strconv.Itoa(math.MaxInt)}}, []int{math.MinInt + 1}},
 	} {
 		r.Case(0)
 		n := 3
@@ -218,7 +225,11 @@ func extremeCounterCorpus(r *hx.Run) {
 			w.actors = append(w.actors, newActor())
 		}
 		r.Line(fmt.Sprintf("wm 3 %d counter", c.v0), "ok")
-		for _, a := range append(c.waits, arrival{t: 2, op: "set", arg: strconv.Itoa(c.set)}) {
+		as := c.waits
+		for _, v := range c.sets {
+			as = append(as, arrival{t: 2, op: "set", arg: strconv.Itoa(v)})
+		}
+		for _, a := range as {
 			r.Line(fmt.Sprintf("w %d %s | %s", a.t, opLine(a), w.arrive(a)), "ok")
 		}
 		r.Count("counter-op:set-extreme")
@@ -261,12 +272,12 @@ func corpus(r *hx.Run) {
 	// after a recovered misuse panic: the state the panic leaves behind, and what is granted afterwards
 	seqCase(r, "sm", []string{"rlock", "runlock", "runlock"})
 	seqCase(r, "sm", []string{"rlock", "unlock"})
-	seqCase(r, "dagc", []string{"rlock:1", "runlock:1,2", "lock:1"})       // known finding: entity 1 unregistered before the panic at 2
-	seqCase(r, "dagc", []string{"rlock:1", "unlock:1", "lock:1"})          // known finding: unregistered, then the wrong-mode panic
+	seqCase(r, "dagc", []string{"rlock:1", "runlock:1,2", "lock:1"})       // former finding (fixed fdd3faa): entity 1 stays registered, Lock(1) blocks
+	seqCase(r, "dagc", []string{"rlock:1", "unlock:1", "lock:1"})          // former finding: the wrong-mode panic leaves the registration; entity 1 is frozen
 	seqCase(r, "dagc", []string{"lock:1", "runlock:1", "rlock:1"})         // the same for RUnlock of a write-locked entity
 	seqCase(r, "dagc", []string{"rlock:1", "runlock:2", "lock:1"})         // nothing unregistered: Lock(1) stays blocked
-	seqCase(r, "dagc", []string{"rlock:1,1", "runlock:1,1,1", "lock:1"})   // duplicates: both registrations gone before the panic
-	seqCase(r, "dagc", []string{"unlock:1", "lock:1"})                     // Unlock's panic leaves d.Mutex locked: frozen
+	seqCase(r, "dagc", []string{"rlock:1,1", "runlock:1,1,1", "lock:1"})   // duplicates: validated with multiplicity, nothing unregistered
+	seqCase(r, "dagc", []string{"unlock:1", "lock:1"})                     // Unlock's lookup panic releases d.Mutex first: Lock(1) is granted
 	gapCorpus(r)
 	extremeCounterCorpus(r)
 	dg := func(n, e int, as ...arrival) { runDagCase(r, 0, n, e, as, 3, false) }
